@@ -466,7 +466,9 @@ func Normalize(fset *token.FileSet, pkgs []*packages.Package, known map[string]b
 			leaf := kind[obj] != "no"
 			ast.Inspect(fd.Body, func(x ast.Node) bool {
 				if call, ok := x.(*ast.CallExpr); ok {
-					if callee := n.calleeOf(call); callee != nil && n.newFn[callee] != nil && kind[callee] != "no" && callee != obj {
+					// helpers that can be inlined anywhere go first (bottom-up); a helper with defer is inlined only in tail
+					// position, possibly after its caller was inlined, so it does not hold its caller back
+					if callee := n.calleeOf(call); callee != nil && n.newFn[callee] != nil && kind[callee] == "plain" && callee != obj {
 						leaf = false
 					}
 				}
